@@ -10,9 +10,9 @@ cxx = False
 fixed_lines = 1
 rule = ("scripts = 'p fmt <description> <sect flags> <opt flags>' then groups of 'p input <bytes>', 'p config' "
         "(event list through a recording handler) and 'p node' (target tree before/after), closed by 'p end' "
-        "(allocation balance + LeakSanitizer); stream 1 enumerates EVERY string up to length 4 (thorough: 5) over the "
-        "format's significant characters + 'a','1',' ','\\n' for each of 8 format descriptions covering the four "
-        "format families; stream 2 = long tokens (254..257 bytes, thorough 65534..65537) as name/value/section "
+        "(allocation balance + LeakSanitizer); stream 1 enumerates EVERY string up to length 4 (length 5 where that is at most 60000 strings; thorough: up "
+        "to 600000 strings per length, i.e. length 5 everywhere and 6 for the small alphabets) over the format's significant "
+        "characters + 'a','1',' ','\\n','\"' for each of 10 format descriptions covering the four format families; stream 2 = long tokens (254..257 bytes, thorough 65534..65537) as name/value/section "
         "name; stream 3 = grammar-generated files mutated by delete/duplicate/flip x name flag sets x handler "
         "refusals x pre-populated target trees x read errors; non-trivial = a script in which the real code "
         "delivered at least one element to the handler or built a node (event list / tree not empty), counted "
@@ -86,16 +86,14 @@ def group(inputs):
 
 def exhaustive(tier):
     out = []
-    top = 4 if tier == "quick" else 5
+    top = 5 if tier == "quick" else 6
+    cap = 60000 if tier == "quick" else 600000
     for name, desc in FORMATS:
         alpha = alphabet(desc)
-        if tier == "quick" and len(alpha) > 9:
-            # keep the quick tier under a minute: lengths up to 4 need |alphabet| <= 9
-            pass
         strings = []
         for n in range(0, top + 1):
-            if n == top and len(alpha) ** n > 60000:
-                continue
+            if len(alpha) ** n > cap:
+                break
             for t in itertools.product(alpha, repeat=n):
                 strings.append("".join(t))
         per = 40
